@@ -28,9 +28,9 @@ func init() {
 			return []mon.Family{
 				{Name: "lanes16", N: 4 * 2 * 64, Run: c02Lanes},
 				{Name: "two-bit-words", N: 64, Run: c02TwoBit},
-				{Name: "gaps", N: c.Pick(3000, 100000), Run: c02Gaps},
-				{Name: "zoo", N: c.Pick(6000, 150000), Run: c02Zoo},
-				{Name: "zoo-long", N: c.Pick(100, 6000), Run: c02ZooLong},
+				{Name: "gaps", N: c.Pick(10000, 2000000), Run: c02Gaps},
+				{Name: "zoo", N: c.Pick(20000, 3000000), Run: c02Zoo},
+				{Name: "zoo-long", N: c.Pick(400, 100000), Run: c02ZooLong},
 			}
 		},
 	})
@@ -71,6 +71,15 @@ func c02Check(w *mon.W, words []uint64, pos *[]int32, cov *c02Cov) bool {
 	w.Op = "IndexSelect32R64"
 	sidx2, ridx := bitmap.IndexSelect32R64(words)
 	w.Eval(2)
+	ret, _ := w.State["c02"].(*retained)
+	if ret == nil {
+		ret = &retained{}
+		w.State["c02"] = ret
+	}
+	if ret.keep(sidx, sidx2, ridx) >= 0 {
+		w.Fail("Index/earlier-returned-index-changed-by-later-call", mon.D{"what": "an index slice returned by an earlier IndexSelect32/IndexSelect32R64 call changed its content after a later call", "nwords_of_later_bitmap": nw})
+		return false
+	}
 	d := func(extra mon.D) mon.D {
 		extra["words"] = truncW(words, 6)
 		extra["nwords"] = nw
